@@ -12,8 +12,9 @@ import glob
 import hashlib
 import os
 
-from .. import par, tlc, tlaparse
+from .. import tlc
 from ..drivers import graph as G
+from ..drivers import graph_par
 
 ASSUME = ['TLC results are exhaustive only within the stated constants (<= 4 nodes, <= 2 foreign nodes, 4 container shapes)',
           'the byte level of pickles is not modelled: oid byte patterns (incl. all-ASCII, all-high, pickle-opcode bytes) '
@@ -89,8 +90,14 @@ class Tally:
             self.new_stored += r['new_stored']
             self.by_storage[r['storage']] = self.by_storage.get(r['storage'], 0) + 1
             self.by_pattern[r['pattern']] = self.by_pattern.get(r['pattern'], 0) + 1
-            if len(self.samples) < 4 and r['new_stored'] and len(r['sig']) > 3:
-                self.samples.append(r['sig'][:20])
+            if r['new_stored'] and len(self.samples) < 6 and sum(1 for x in self.samples if x[0] == mode) < 2:
+                self.samples.append([mode, '%s/%s' % (r['storage'], r['pattern'])] + r['sig'][:20])
+            for sm in r.get('soft', ()):
+                ctx.violation({'action': 'LoadElsewhere', 'what': sm['what'], 'item': sm['item']},
+                              '%s: %s storage, oid pattern %s, behaviour %s: %s' % (
+                                  mode, r['storage'], r['pattern'], ' '.join(r['sig'][:16]), sm['detail']),
+                              replay={'mode': mode, 'storage': r['storage'], 'pattern': r['pattern'], 'opts': r['opts'],
+                                      'fnodes': r['fnodes'], 'prefix': r['sig'], 'source': r.get('source')})
             mm = r['mismatch']
             if mm:
                 sig = {'action': G_ALIAS.get(mm['action'], mm['action']), 'what': mm['what'], 'item': mm['item']}
@@ -109,7 +116,7 @@ def _replay_job(job):
     r['fnodes'] = list(job[3])
     if isinstance(job[0], str) and job[0].startswith('<< "GRAPH"'):
         r['key'] = hashlib.sha1(job[0].encode()).hexdigest()
-    if r['mismatch'] and isinstance(job[0], str):
+    if (r['mismatch'] or r.get('soft')) and isinstance(job[0], str):
         src = job[0]
         if not src.startswith('<< "GRAPH"'):
             with open(src) as f:
@@ -125,7 +132,23 @@ def replay_jobs(ctx, tally, jobs, mode, chunksize, batch=1600, enough=40):
             tally.skipped += len(jobs) - i
             ctx.notes.append('%s: %d behaviours not replayed after %d violations' % (mode, len(jobs) - i, len(ctx.violations)))
             return
-        tally.add(ctx, par.pmap(_replay_job, jobs[i:i + batch], chunksize=chunksize), mode)
+        tally.add(ctx, graph_par.pmap(_replay_job, jobs[i:i + batch], ctx.scratch, chunksize=chunksize, on_death=_died), mode)
+
+
+def _died(job, status):
+    """the interpreter died (or hung) while replaying this behaviour"""
+    how = 'signal %d' % os.WTERMSIG(status) if os.WIFSIGNALED(status) else 'exit %d' % os.WEXITSTATUS(status)
+    if os.WIFSIGNALED(status) and os.WTERMSIG(status) == 9:
+        how = 'killed after the chunk timeout'
+    src = job[0]
+    if isinstance(src, str) and not src.startswith('<< "GRAPH"'):
+        with open(src) as f:
+            src = f.read()
+    return {'steps': 0, 'sig': ['(process died)'], 'soft': [], 'new_stored': 0, 'edges_stored': 0, 'weak_added': 0, 'actions': {},
+            'formats': {}, 'counts': {}, 'storage': job[1], 'pattern': job[2], 'fnodes': list(job[3]), 'opts': job[5],
+            'source': src, 'key': hashlib.sha1(repr(job[0]).encode()).hexdigest(),
+            'mismatch': {'step': -1, 'action': 'any', 'args': '', 'what': 'crash', 'item': how, 'prefix': [], 'init': None,
+                         'detail': 'the interpreter died (%s) while this behaviour was replayed' % how}}
 
 
 def graphs(ctx, tally, name, c, fnodes, both=False):
@@ -174,7 +197,11 @@ def deviation_witness(ctx):
                          '(behaviour %s conforms to WeakAdds = FALSE)' % res['sig'])
         return 'absent'
     if (mm['action'], mm['what'], mm['item']) != ('Commit', 'hasOid', 'extra'):
-        raise RuntimeError('deviation witness diverged elsewhere: %r' % (mm,))
+        # up to the commit both settings of WeakAdds agree: any other divergence is one from the specification
+        ctx.violation({'action': G_ALIAS.get(mm['action'], mm['action']), 'what': mm['what'], 'item': mm['item']},
+                      'witness behaviour %s, step %d: %s' % (res['sig'], mm['step'], mm['detail']),
+                      replay={'mode': 'witness', 'prefix': mm['prefix'], 'init': mm['init']})
+        return 'undetermined'
     return 'present'
 
 
@@ -186,7 +213,7 @@ def run(ctx):
                                  MaxEdges=2, MaxOps=4 if q else 6))]
     if not q:
         mc.append(('programs-2n-kinds', consts(NNode=2, FNodes=(100, 101), Holders=('direct', 'deep'), KindSets='KS_Any',
-                                               MaxEdges=3, MaxOps=5)))
+                                               MaxEdges=3, MaxOps=4)))
     for name, c in mc:
         cfg = _cfg(ctx, name, c, invariants=INVARIANTS, properties=PROPERTIES, view='View')
         ctx.model_check('MCZGraph', cfg, name=name, timeout=1500)
@@ -197,7 +224,7 @@ def run(ctx):
     if not q:
         gcfgs += [
             ('graphs-3edges', consts(NNode=3, FNodes=(), Holders=('direct', 'list'), KindSets='KS_Rot1', MaxEdges=3), ()),
-            ('graphs-4holders', consts(NNode=3, FNodes=(100, 101), Holders=('direct', 'list', 'dict', 'deep'),
+            ('graphs-3holders', consts(NNode=3, FNodes=(100, 101), Holders=('list', 'dict', 'deep'),
                                        KindSets='KS_Rot2', MaxEdges=2), (100, 101)),
             ('graphs-rot3', consts(NNode=3, FNodes=(101,), Holders=('list', 'dict'), KindSets='KS_Rot3', MaxEdges=2), (101,)),
         ]
